@@ -192,6 +192,20 @@ Theorem rebuild_every_cut_safe : forall n,
 Proof. exact rebuild_every_cut_safe_proved. Qed.
 Print Assumptions rebuild_every_cut_safe.
 
+(* restart: node.replayLog hands what the store holds to the LogReader on every path that
+   returns without error (the early returns before the hand-over are GENERATED:
+   [replay_log_guards] = nothing saved at all, read error); the launched raft peer starts
+   from the durable term, vote, commit, entries and snapshot, so it covers every message the
+   durable image covers (one vote per term also across restarts: C03) *)
+Theorem restart_keeps_durable_state : forall img,
+  same_claims (restart_image img) img /\ i_commit (restart_image img) = i_commit img.
+Proof. exact restart_keeps_durable_state_proved. Qed.
+Print Assumptions restart_keeps_durable_state.
+
+Theorem restart_covers : forall img m, covers (restart_image img) m = covers img m.
+Proof. exact restart_covers_proved. Qed.
+Print Assumptions restart_covers.
+
 (* faithful to the code: a commit-only State change is NOT fsynced by Tan; the commit index may
    lag after power loss (no message of the property makes a claim about it) *)
 Theorem tan_commit_only_change_not_synced :
@@ -261,3 +275,7 @@ Example tan_batch_examples :
          [mkUpd 1 1 (mkHS 4 0 2) [] [] 0 0 [] true; mkUpd 17 1 (mkHS 4 0 2) [] [] 0 0 [] true]) = false /\
   rebuild_safe (rebuild_run [RsCloseFile; RsRename]) = false.
 Proof. vm_compute. repeat split; reflexivity. Qed.
+
+(* a store that holds only a State record (a vote granted with an empty log) restarts with it *)
+Example restart_state_only : restart_image (mkImg 5 2 0 0 0 []) = mkImg 5 2 0 0 0 [].
+Proof. vm_compute. reflexivity. Qed.
